@@ -10,15 +10,28 @@ Import ListNotations.
 Open Scope Z_scope.
 
 (* NWild true is the wildcard written dot-star, NWild false the one written as a bracketed star *)
-Inductive nfrag : Set := NChild (k : bytes) | NNth (i : Z) | NWild (star : bool) | NDescent.
+Inductive nfrag : Set := NChild (k : bytes) | NNth (i : Z) | NWild (star : bool) | NDescent | NUnion (ms : list (bytes + Z)).
 
 (* ---- printer *)
 Definition tok_byte (b : byte) : bool := negb (beqb (jp_tokenMap b) x2e).
 Definition token_ok (k : bytes) : bool :=
   match k with [] => false | _ => forallb tok_byte k end.
 
+Definition print_member (m : bytes + Z) : bytes :=
+  match m with
+  | inl s => x27 :: enc_body_u (length s) s ++ [x27]
+  | inr i => format_int i
+  end.
+Fixpoint print_members (ms : list (bytes + Z)) : bytes :=
+  match ms with
+  | [] => []
+  | [m] => print_member m
+  | m :: r => print_member m ++ x2c :: print_members r
+  end.
+
 Definition print_frag (f : nfrag) : bytes :=
   match f with
+  | NUnion ms => x5b :: print_members ms ++ [x5d]
   | NChild k => if token_ok k then x2e :: k else x5b :: x27 :: enc_body_u (length k) k ++ [x27; x5d]
   | NNth i => x5b :: format_int i ++ [x5d]
   | NWild true => [x2e; x2a]
@@ -58,8 +71,51 @@ Fixpoint read_digits (acc : Z) (w : bytes) : Z * bytes :=
   | [] => (acc, [])
   end.
 
+(* readInt on the byte q (already consumed) and what follows: the value and the text from the
+   first byte after the digits *)
+Definition read_int (q : byte) (r' : bytes) : option (Z * bytes) :=
+  let neg := beqb q x2d in
+  let ds := if neg then r' else q :: r' in
+  match ds with
+  | d :: _ =>
+      if is_digit d then let '(v, r2) := read_digits 0 ds in Some ((if neg then - v else v), r2) else None
+  | [] => None
+  end.
+
 Definition cons_opt (f : nfrag) (r : option (list nfrag)) : option (list nfrag) :=
   match r with Some l => Some (f :: l) | None => None end.
+
+Definition push_member (m : bytes + Z) (r : option (list (bytes + Z) * bytes)) : option (list (bytes + Z) * bytes) :=
+  match r with Some (l, k) => Some (m :: l, k) | None => None end.
+
+(* what follows a union member: a comma (more members) or the closing bracket *)
+Definition after_member (m : bytes + Z) (w : bytes) (more : bytes -> option (list (bytes + Z) * bytes)) :
+  option (list (bytes + Z) * bytes) :=
+  match skip_space w with
+  | e :: r => if beqb e x2c then push_member m (more r) else if beqb e x5d then Some ([m], r) else None
+  | [] => None
+  end.
+
+(* readUnion, entered right after a comma *)
+Fixpoint read_union (fuel : nat) (w : bytes) : option (list (bytes + Z) * bytes) :=
+  match fuel with
+  | O => None
+  | S f =>
+    match skip_space w with
+    | [] => None
+    | q :: r' =>
+        if beqb q x27 || beqb q x22 then
+          match read_str q r' with
+          | Some (s, r2) => after_member (inl s) r2 (read_union f)
+          | None => None
+          end
+        else
+          match read_int q r' with
+          | Some (v, r2) => after_member (inr v) r2 (read_union f)
+          | None => None
+          end
+    end
+  end.
 
 (* [ld]: the previous fragment was a descent (lastDescent in readExpr) *)
 Fixpoint parse_frags (fuel : nat) (ld : bool) (w : bytes) : option (list nfrag) :=
@@ -92,24 +148,33 @@ Fixpoint parse_frags (fuel : nat) (ld : bool) (w : bytes) : option (list nfrag) 
               match read_str q r' with
               | Some (s, r2) =>
                   match skip_space r2 with
-                  | e :: r3 => if beqb e x5d then cons_opt (NChild s) (parse_frags f false r3) else None
+                  | e :: r3 =>
+                      if beqb e x5d then cons_opt (NChild s) (parse_frags f false r3)
+                      else if beqb e x2c then
+                        match read_union (length r3) r3 with
+                        | Some (ms, r4) => cons_opt (NUnion (inl s :: ms)) (parse_frags f false r4)
+                        | None => None
+                        end
+                      else None
                   | [] => None
                   end
               | None => None
               end
             else
-              let neg := beqb q x2d in
-              let ds := if neg then r' else q :: r' in
-              match ds with
-              | d :: _ =>
-                  if is_digit d then
-                    let '(v, r2) := read_digits 0 ds in
-                    match skip_space r2 with
-                    | e :: r3 => if beqb e x5d then cons_opt (NNth (if neg then - v else v)) (parse_frags f false r3) else None
-                    | [] => None
-                    end
-                  else None
-              | [] => None
+              match read_int q r' with
+              | Some (v, r2) =>
+                  match skip_space r2 with
+                  | e :: r3 =>
+                      if beqb e x5d then cons_opt (NNth v) (parse_frags f false r3)
+                      else if beqb e x2c then
+                        match read_union (length r3) r3 with
+                        | Some (ms, r4) => cons_opt (NUnion (inr v :: ms)) (parse_frags f false r4)
+                        | None => None
+                        end
+                      else None
+                  | [] => None
+                  end
+              | None => None
               end
         end
       else if tok_byte b && ld then                        (* afterDotDot *)
@@ -128,6 +193,9 @@ Definition parse_path (w : bytes) : option (list nfrag) :=
 Definition norm_frag (f : nfrag) : nfrag :=
   match f with
   | NChild k => if token_ok k then NChild k else NChild (sanitize k)
+  | NUnion [inl s] => NChild (sanitize s)      (* a union of one member reads back as that child / index *)
+  | NUnion [inr i] => NNth i
+  | NUnion ms => NUnion (map (fun m => match m with inl s => inl (sanitize s) | inr i => inr i end) ms)
   | _ => f
   end.
 
@@ -139,6 +207,7 @@ Definition show_frag (f : nfrag) : bytes :=
   | NWild true => [x77; x2a]
   | NWild false => [x77; x23]
   | NDescent => [x64]
+  | NUnion ms => x75 :: flat_map (fun m => match m with inl s => x2c :: x73 :: Jv.hex_of_bytes s | inr i => x2c :: x69 :: format_int i end) ms
   end.
 Fixpoint show_frags (fs : list nfrag) : bytes :=
   match fs with [] => [] | [f] => show_frag f | f :: r => show_frag f ++ x20 :: show_frags r end.
